@@ -205,6 +205,8 @@ FAMILY = [
     [102002, 12101], [101000, 31001], [301001, 101002, 301011, 12101], [222000, 236000, 101000, 31002, 31031, 1031, 33007],
     [105002, 1001, 201130, 12101, 201000, 301001, 10004], [101001, 101001, 101001, 12101, 1001],
     [100000, 31001, 12101], [100002, 12101], [103000, 31001, 101000, 31001, 12101, 1001],
+    [112002] + [1001, 12101, 10004] * 4 + [7004], [163000, 31001] + [1001, 12101, 10004] * 21 + [7004, 20003],
+    [120003] + [1001] * 9 + [101002, 12101] + [10004] * 9 + [7004],
 ]
 
 
